@@ -697,6 +697,14 @@ class Node(
                     # execution
                     node.signals.disconnect_run()
 
+                for node in data_tree_nodes:
+                    # The upstream nodes are chained by their `ran` signals; whatever
+                    # else they may emit (`failed`, the branches of an `If`) must not
+                    # start nodes outside the data tree either
+                    for channel in node.signals.output:
+                        if channel is not node.signals.output.ran:
+                            disconnected_pairs.extend(channel.disconnect_all())
+
                 self.signals.disconnect_run()
                 # Don't let anything upstream trigger _this_ node
 
